@@ -285,31 +285,49 @@ theorem ite_prop_iff (c : Prop) [Decidable c] (P Q : Prop) :
 /-- Symbolic execution of a `do` block under `tri`; windows are normalised to `T.drop k`, tokens to
 `T.getD i E`; errors on a single input token are discharged on the way. -/
 syntax "tsimp" (" [" Lean.Parser.Tactic.simpLemma,* "]")? : tactic
+syntax "tsimpS" : tactic
 macro_rules
-  | `(tactic| tsimp) => `(tactic| simp only [tri_bind, tri_pure, tri_fail, tri_ite, tri_get, tri_set, tri_cur,
-      tri_peek, tri_peek2, tri_peek3, tri_peek4, tri_nextToken, tri_curIs, tri_peekIs, tri_peek2Is, tri_expectPeek,
-      tri_expectPeekErr, tri_tryReplace, tri_newSid, tri_pushBreak, tri_popBreak, tri_pushContinue,
-      tri_popContinue, tri_bumpCmdId,
-      upd_toks, upd_nextCmdId, upd_eof, upd_constants, upd_breakStack, upd_continueStack, upd_nextSid, upd_upd,
-      setSid_toks, setSid_eof, setSid_constants, setSid_nextCmdId, setSid_breakStack, setSid_continueStack,
-      setSid_nextSid, setB_toks, setB_eof, setB_constants, setB_nextCmdId, setB_breakStack, setB_continueStack,
-      setB_nextSid, setC_toks, setC_eof, setC_constants, setC_nextCmdId, setC_breakStack, setC_continueStack,
-      setC_nextSid,
-      drop_tail_tok, drop_headD_tok, drop_getD_tok, el_ite, el_at, el_fuel, el_panic, tin_at, tin_lit, tin_type_lit,
-      Bool.not_true, Bool.not_false, Bool.false_eq_true, if_true, if_false, ite_self, implies_true, and_self,
-      and_true, true_and, ite_prop_iff, true_implies, false_implies, not_false_eq_true, not_true_eq_false, bne_iff_ne, ne_eq, reduceCtorEq, true_or, or_true])
-  | `(tactic| tsimp [$ts,*]) => `(tactic| simp only [tri_bind, tri_pure, tri_fail, tri_ite, tri_get, tri_set,
-      tri_cur, tri_peek, tri_peek2, tri_peek3, tri_peek4, tri_nextToken, tri_curIs, tri_peekIs, tri_peek2Is,
-      tri_expectPeek, tri_expectPeekErr, tri_tryReplace, tri_newSid, tri_pushBreak, tri_popBreak,
-      tri_pushContinue, tri_popContinue, tri_bumpCmdId,
-      upd_toks, upd_nextCmdId, upd_eof, upd_constants, upd_breakStack, upd_continueStack, upd_nextSid, upd_upd,
-      setSid_toks, setSid_eof, setSid_constants, setSid_nextCmdId, setSid_breakStack, setSid_continueStack,
-      setSid_nextSid, setB_toks, setB_eof, setB_constants, setB_nextCmdId, setB_breakStack, setB_continueStack,
-      setB_nextSid, setC_toks, setC_eof, setC_constants, setC_nextCmdId, setC_breakStack, setC_continueStack,
-      setC_nextSid,
-      drop_tail_tok, drop_headD_tok, drop_getD_tok, el_ite, el_at, el_fuel, el_panic, tin_at, tin_lit, tin_type_lit,
-      Bool.not_true, Bool.not_false, Bool.false_eq_true, if_true, if_false, ite_self, implies_true, and_self,
-      and_true, true_and, ite_prop_iff, true_implies, false_implies, not_false_eq_true, not_true_eq_false, bne_iff_ne, ne_eq, reduceCtorEq, true_or, or_true, $ts,*])
+  | `(tactic| tsimp) => `(tactic| simp only [tri_bind, tri_pure, tri_fail, tri_ite, tri_get, tri_set, tri_cur, tri_peek, tri_peek2, tri_peek3,
+      tri_peek4, tri_nextToken, tri_curIs, tri_peekIs, tri_peek2Is, tri_expectPeek, tri_expectPeekErr,
+      tri_tryReplace, tri_newSid, tri_pushBreak, tri_popBreak, tri_pushContinue, tri_popContinue,
+      tri_bumpCmdId, upd_toks, upd_nextCmdId, upd_eof, upd_constants, upd_breakStack, upd_continueStack,
+      upd_nextSid, upd_upd, setSid_toks, setSid_eof, setSid_constants, setSid_nextCmdId,
+      setSid_breakStack, setSid_continueStack, setSid_nextSid, setB_toks, setB_eof, setB_constants,
+      setB_nextCmdId, setB_breakStack, setB_continueStack, setB_nextSid, setC_toks, setC_eof,
+      setC_constants, setC_nextCmdId, setC_breakStack, setC_continueStack, setC_nextSid, drop_tail_tok,
+      drop_headD_tok, drop_getD_tok, el_ite, el_at, el_fuel, el_panic, tin_at, tin_lit, tin_type_lit,
+      Bool.not_true, Bool.not_false, Bool.false_eq_true, if_true, if_false, ite_self, implies_true,
+      and_self, and_true, true_and, ite_prop_iff, true_implies, false_implies, not_false_eq_true,
+      not_true_eq_false, bne_iff_ne, ne_eq, reduceCtorEq, true_or, or_true])
+  | `(tactic| tsimp [$ts,*]) => `(tactic| simp only [tri_bind, tri_pure, tri_fail, tri_ite, tri_get, tri_set, tri_cur, tri_peek, tri_peek2, tri_peek3,
+      tri_peek4, tri_nextToken, tri_curIs, tri_peekIs, tri_peek2Is, tri_expectPeek, tri_expectPeekErr,
+      tri_tryReplace, tri_newSid, tri_pushBreak, tri_popBreak, tri_pushContinue, tri_popContinue,
+      tri_bumpCmdId, upd_toks, upd_nextCmdId, upd_eof, upd_constants, upd_breakStack, upd_continueStack,
+      upd_nextSid, upd_upd, setSid_toks, setSid_eof, setSid_constants, setSid_nextCmdId,
+      setSid_breakStack, setSid_continueStack, setSid_nextSid, setB_toks, setB_eof, setB_constants,
+      setB_nextCmdId, setB_breakStack, setB_continueStack, setB_nextSid, setC_toks, setC_eof,
+      setC_constants, setC_nextCmdId, setC_breakStack, setC_continueStack, setC_nextSid, drop_tail_tok,
+      drop_headD_tok, drop_getD_tok, el_ite, el_at, el_fuel, el_panic, tin_at, tin_lit, tin_type_lit,
+      Bool.not_true, Bool.not_false, Bool.false_eq_true, if_true, if_false, ite_self, implies_true,
+      and_self, and_true, true_and, ite_prop_iff, true_implies, false_implies, not_false_eq_true,
+      not_true_eq_false, bne_iff_ne, ne_eq, reduceCtorEq, true_or, or_true, $ts,*])
+  | `(tactic| tsimpS) => `(tactic| simp only [tri_bind, tri_pure, tri_fail, tri_ite, tri_get, tri_set, tri_cur, tri_peek, tri_peek2, tri_peek3,
+      tri_peek4, tri_nextToken, tri_curIs, tri_peekIs, tri_peek2Is, tri_expectPeek, tri_expectPeekErr,
+      tri_tryReplace, tri_newSid, tri_pushBreak, tri_popBreak, tri_pushContinue, tri_popContinue,
+      tri_bumpCmdId, upd_toks, upd_nextCmdId, upd_eof, upd_constants, upd_breakStack, upd_continueStack,
+      upd_nextSid, upd_upd, setSid_toks, setSid_eof, setSid_constants, setSid_nextCmdId,
+      setSid_breakStack, setSid_continueStack, setSid_nextSid, setB_toks, setB_eof, setB_constants,
+      setB_nextCmdId, setB_breakStack, setB_continueStack, setB_nextSid, setC_toks, setC_eof,
+      setC_constants, setC_nextCmdId, setC_breakStack, setC_continueStack, setC_nextSid, drop_tail_tok,
+      drop_headD_tok, drop_getD_tok, el_ite, el_at, el_fuel, el_panic, tin_at, tin_lit, tin_type_lit,
+      Bool.not_true, Bool.not_false, Bool.false_eq_true, if_true, if_false, ite_self, implies_true,
+      and_self, and_true, true_and, ite_prop_iff, true_implies, false_implies, not_false_eq_true,
+      not_true_eq_false, bne_iff_ne, ne_eq, reduceCtorEq, true_or, or_true, *])
+
+/-- Start: symbolic execution from a state with invariant `hi`; the window equations stay in the context for
+later `tsimpS` calls. -/
+macro "tstart " hi:ident : tactic =>
+  `(tactic| (have hs := ($hi).toks; have he := ($hi).eof; tsimp [hs, he]))
 
 /-- Re-establish the invariant for a state built from one that satisfies it. -/
 macro "invtac" : tactic =>
@@ -329,7 +347,7 @@ macro_rules
   | `(tactic| tgo [$ts,*]) => `(tactic| repeat' (first
       | exact True.intro
       | assumption
-      | (apply And.intro)
+      | (with_reducible (apply And.intro))
       | (apply post_intro)
       | (exact impok_empty _ _) | (apply impok_add) | (apply impok_addText) | (apply impok_addMovement)
       | (exact el_range _ _ _ _ _ (by omega))
@@ -338,7 +356,7 @@ macro_rules
       | ((with_reducible (intro a s' hp)); obtain ⟨k', hk, hinv, hr⟩ := hp; have hs := hinv.toks; have he := hinv.eof;
           try tsimp [hs, he])
       | (with_reducible intro _)
-      | tsimp
+      | tsimpS
       | (apply tri_call; first $[| apply $ts]*)
       | (apply el_tin_of)
       | (first $[| apply $ts]*)
